@@ -14,7 +14,8 @@ theorem source_shape :
     ∧ Gen.commandLoopUnregistersSocket = 1 ∧ Gen.commandLoopUnregistersInprocNames = 1
     ∧ Gen.commandLoopStopsPatternAtExit = 1 ∧ Gen.queueCloseWakesParkedPop = 1 ∧ Gen.connecterAbortIsFinal = 1
     ∧ Gen.connecterChecksParentRunning = 1 ∧ Gen.handshakeWatchesEvents = 1 ∧ Gen.handshakePollsParentEveryMs = 100
-    ∧ 20 ≤ Gen.userOpsGuardedByIsRunning ∧ Gen.termStragglerTimeoutSecs = 10 := by
+    ∧ 20 ≤ Gen.userOpsGuardedByIsRunning ∧ Gen.termStragglerTimeoutSecs = 10
+    ∧ Gen.sessionDrainsMailboxAtExit = 1 := by
   decide
 
 -- accounting: term() returns exactly when nothing is left ------------------------------------------------------------------
@@ -69,6 +70,56 @@ theorem closed_socket_never_hangs (phase : LoopPhase) (hp : phase ≠ .running) 
 for ever -/
 theorem unanswered_mailbox_hangs : apiResult false .exited .close = .hangs ∧ apiResult false .shuttingDown .bind = .hangs := by
   decide
+
+-- calls parked inside the socket come back -----------------------------------------------------------------------------------------------
+
+/-- every socket type whose send() can wait for a first peer treats that wait the same way: Stop reaches it, releases
+everybody, and a caller that arrives later sees the flag (re-extracted from the sources on every run) -/
+theorem parking_sites_as_proved (ty : BalancedTy) : balancerSite ty = goodSite := by
+  cases ty <;> decide
+
+/-- however many tasks are parked in send() on a socket without a peer (SNDTIMEO -1), whenever they arrived, and
+whatever arrives afterwards: once the pattern has processed Stop, nobody is parked - in every later state -/
+theorem parked_senders_are_released (ty : BalancedTy) (pre post : List ParkEv) :
+    (Park.run (balancerSite ty) {} (pre ++ [.stop] ++ post)).parked = [] := by
+  rw [parking_sites_as_proved]
+  exact Park.after_stop_nobody_parked pre post
+
+/-- … and none of them is lost on the way: everyone who called is parked or has returned -/
+theorem parked_senders_all_accounted_for (ty : BalancedTy) (evs : List ParkEv) :
+    (Park.run (balancerSite ty) {} evs).parked.length + (Park.run (balancerSite ty) {} evs).returned.length
+      = (evs.filter ParkEv.isArrive).length := by
+  simpa using Park.conservation (balancerSite ty) {} evs
+
+/-- non-vacuity: three parked senders, one Stop, all three are back -/
+example : (Park.run (balancerSite .req) {} [.arrive 0, .arrive 1, .arrive 2, .stop]).returned = [0, 1, 2] := by decide
+
+/-- the seeded shape (`notify_one` in `deactivate`): Stop is processed twice per shutdown, so the third parked sender
+stays for ever -/
+theorem notify_one_strands_the_third_sender :
+    (Park.run { reaches := true, wakesAll := false, checksFlag := true } {} [.arrive 0, .arrive 1, .arrive 2, .stop, .stop]).parked = [2] := by
+  decide
+
+/-- the earlier shape of REQ (Stop never reached its balancer): even a single parked sender stays for ever -/
+theorem unreached_site_strands_everyone (n : List ParkEv) :
+    (Park.run { reaches := false, wakesAll := true, checksFlag := true } {} ([.arrive 0] ++ n)).parked ≠ [] := by
+  have h := Park.conservation { reaches := false, wakesAll := true, checksFlag := true } {} ([.arrive 0] ++ n)
+  have hret : ∀ (p : Park) (evs : List ParkEv), p.flag = false → p.permit = false →
+      (Park.run { reaches := false, wakesAll := true, checksFlag := true } p evs).returned = p.returned := by
+    intro p evs
+    induction evs generalizing p with
+    | nil => intros; rfl
+    | cons e es ih =>
+      intro hf hp
+      simp only [Park.run, List.foldl_cons]
+      cases e with
+      | arrive t =>
+        have := ih ({ p with parked := p.parked ++ [t] }) (by simpa using hf) (by simpa using hp)
+        simpa [Park.run, Park.step, hf, hp] using this
+      | stop => simpa [Park.run, Park.step] using ih p hf hp
+  intro hempty
+  rw [hret {} _ rfl rfl, hempty] at h
+  simp [ParkEv.isArrive, List.filter] at h
 
 -- names are free again ---------------------------------------------------------------------------------------------------------------
 
